@@ -7,7 +7,12 @@ pub mod runtime {
 pub mod task {
     use std::future::Future;
 
-    pub use tokio::task::{JoinError, JoinHandle, spawn, spawn_blocking};
+    #[cfg(not(remoc_verif))]
+    pub use tokio::task::spawn;
+    pub use tokio::task::{JoinError, JoinHandle, spawn_blocking};
+
+    #[cfg(remoc_verif)]
+    pub use super::verif::spawn;
 
     /// Runs a future to completion.
     #[track_caller]
@@ -22,5 +27,70 @@ pub mod time {
 
     pub mod error {
         pub use tokio::time::error::Elapsed;
+    }
+}
+
+/// Verification hook (only with `--cfg remoc_verif`): poll deferral of spawned tasks.
+///
+/// Every task spawned through [task::spawn] is wrapped in an adapter that, driven by a
+/// thread-local pseudo random sequence set by the test harness, may return `Pending` once
+/// (after waking itself) before polling the wrapped future. With seed 0 (the default) no
+/// poll is ever deferred.
+#[cfg(remoc_verif)]
+#[doc(hidden)]
+pub mod verif {
+    use std::{
+        cell::Cell,
+        future::Future,
+        pin::Pin,
+        task::{Context, Poll},
+    };
+    use tokio::task::JoinHandle;
+
+    thread_local! {
+        static DEFER_STATE: Cell<u64> = const { Cell::new(0) };
+    }
+
+    /// Sets the deferral seed for tasks polled on this thread; 0 disables deferral.
+    pub fn set_defer_seed(seed: u64) {
+        DEFER_STATE.with(|s| s.set(seed));
+    }
+
+    fn next_defer() -> bool {
+        DEFER_STATE.with(|s| {
+            let mut x = s.get();
+            if x == 0 {
+                return false;
+            }
+            x ^= x << 13;
+            x ^= x >> 7;
+            x ^= x << 17;
+            s.set(x);
+            x % 3 == 0
+        })
+    }
+
+    struct Defer<F>(Pin<Box<F>>);
+
+    impl<F: Future> Future for Defer<F> {
+        type Output = F::Output;
+
+        fn poll(mut self: Pin<&mut Self>, cx: &mut Context<'_>) -> Poll<Self::Output> {
+            if next_defer() {
+                cx.waker().wake_by_ref();
+                return Poll::Pending;
+            }
+            self.0.as_mut().poll(cx)
+        }
+    }
+
+    /// Spawns a task whose polls may be deferred.
+    #[track_caller]
+    pub fn spawn<F>(future: F) -> JoinHandle<F::Output>
+    where
+        F: Future + Send + 'static,
+        F::Output: Send + 'static,
+    {
+        tokio::task::spawn(Defer(Box::pin(future)))
     }
 }
